@@ -64,6 +64,9 @@ var c14PathPool = []string{
 	"/duo", "/duo[k1=a]", "/duo[k2=a]", "/duo[k1=a][k2=b]", "/duo[k1=a][k2=b]/v",
 	"/tri", "/tri[a=k]", "/tri[c=x]", "/tri[a=k][b=1][c=x]", "/tri[b=1]",
 	"/pres2", "/stats",
+	// key leaves (alone: a JSON answer has to complete the entry with the other keys)
+	"/duo[k1=a][k2=b]/k2", "/duo[k1=a][k2=b]/k1", "/duo[k2=b]/k2", "/peer[name=n1][zone=z1]/zone", "/peer[name=n1][zone=z1]/name", "/tri[a=k][b=1][c=x]/c", "/tri[a=k][b=1][c=x]/b",
+	"/if[name=e1]/name", "/if[name=e1]/unit[id=1]/id",
 }
 
 // separates: requests whose filter must tell prefix related siblings apart
